@@ -26,10 +26,13 @@ class SiteCheck(PropertyCheck):
             'object or a superseded duplicate; distinct = by hash of (files, arguments)')
     trusted_base = [
         'Coq 8.16.1 kernel; vm_compute for listings_checked / witnesses / examples; no native_compute; no axioms',
-        'translator harness/gen/gen_listings.py (fail-closed): iteration domain + isVisible / no-space guards of 22 listing '
-        'producers, the hidden-target guard of linker.taglink, the private markers; pins the text of Documentable.url / '
-        'page_object / isVisible / isPrivate / fullName, System.objectsOfType, util.nested_bases / class_members / '
-        'inherited_members, the anchor renderers of FunctionChild / AttributeChild and the rest of taglink',
+        'translator harness/gen/gen_listings.py (fail-closed): STATIC part = iteration domain + isVisible / no-space guards of 22 '
+        'listing producers, read as element streams (comprehensions, loops with guard clauses, locals, helper calls are '
+        'followed) with the path condition of the emitting statements; BEHAVIOURAL part = the hand-mirrored functions '
+        '(fullName, privacyClass/__main__, isVisible, isPrivate, page_object, url, taglink incl. the measured hidden-target flag, '
+        'css_class and the class_ renderers, moduleSummary incl. the compact threshold, search privacy field, objectsOfType, '
+        'nested_bases / class_members / inherited_members, anchor renderers) are RUN on fixture systems built with the real '
+        'builder and compared with a reference of what Model/Site.v mirrors',
         'oracle contract: urllib.parse.quote never emits "#" (proved for the concrete model quote: cquote_no_hash)',
         'extraction ExtrOcamlBasic only + coq/ocaml/driver.ml',
         'harness/c11_check.py, c11_site.py (generator, canonicalisation, oracles), impl/c11_crawl.py + c11_crawler.py '
